@@ -223,10 +223,16 @@ fn module_text(case: &Case, f: usize) -> String {
     o.push_str("local function bump() counter = counter + 1 return name .. \":\" .. counter end\n");
     o.push_str(&format!("REG.{} = {{bump = bump, deps = deps}}\n", name));
     let export = case.c["exports"][f - 1].as_str().unwrap_or("table");
+    // `semi: 1`: the last statement of the module is closed by a semicolon (a token of its own: `return value;`), and a
+    // nested block of the module ends with `return;` / `break;`
+    let semi = if case.c["semi"] == json!(1) { ";" } else { "" };
+    if !semi.is_empty() {
+        o.push_str("local function early(flag) if flag then return name; end while flag do break; end return flag; end\nearly(false);\n");
+    }
     match case.kind(f) {
-        "ret0" => o.push_str(if case.c["sp0"] == json!(1) { "return\n" } else { "counter = counter + 0\n" }),
-        "ret2" => o.push_str(&format!("return {}, name\n", export_expr(export, name))),
-        _ => o.push_str(&format!("return {}\n", export_expr(export, name))),
+        "ret0" => o.push_str(&if case.c["sp0"] == json!(1) { format!("return{}\n", semi) } else { "counter = counter + 0\n".to_string() }),
+        "ret2" => o.push_str(&format!("return {}, name{}\n", export_expr(export, name), semi)),
+        _ => o.push_str(&format!("return {}{}\n", export_expr(export, name), semi)),
     }
     o
 }
